@@ -230,6 +230,14 @@ IMPORT_FILES = {
 }
 
 
+# asserting tests in which an assertion with a pending fix stands in front of further uses of the same snapshot (finding F-54: a trim-only
+# session stops at the failing assertion, the values used behind it count as unused)
+ABORT_FILES = {
+    "test_t.py": "from inline_snapshot import snapshot\n\n\ndef test_d():\n    s = snapshot({'a': 1, 'c': 5})\n    assert s['a'] == 2\n    assert s['c'] == 5\n\n\n"
+                 "def test_l():\n    s = snapshot([4, 5])\n    assert 6 in s\n    assert 5 in s\n",
+}
+
+
 def run_session_orders(_, files=None, P=("create", "fix", "trim", "update"), norders=7):
     """the categories pending in a project of three files approved together in one real pytest session vs one session per
     category in every order"""
@@ -341,6 +349,17 @@ def run(ctx: Ctx):
             ctx.report(f"C09 oracle: create needs `HasRepr`, fix needs `external`: approving {order} one session at a time gives another program than one session with both "
                        f"({'the inserted import lines are in another order' if only_imports else 'more than the import lines differs'})",
                        {"kind": "sessions-imports", "order": order}, tag="F-49" if only_imports else None)
+    # D3: a failing assertion in front of further uses of the snapshot, fix and trim pending
+    sa = run_session_orders(None, ABORT_FILES, ("fix", "trim"), 2)
+    ctx.count(("sessions-abort",), True, n=3)
+    if "error" in sa["together"]:
+        ctx.report("C09 (sessions, failing assertion before further uses): " + sa["together"]["error"], {"kind": "sessions-abort"})
+    for order, r in sa["orders"]:
+        if "error" in r:
+            ctx.report("C09 (sessions, failing assertion before further uses): " + r["error"], {"kind": "sessions-abort"})
+        elif r != sa["together"]:
+            ctx.report(f"C09 oracle: a failing assertion stands in front of further uses of the snapshot: approving {order} one session at a time gives another program than "
+                       f"one session with fix,trim", {"kind": "sessions-abort", "order": order}, tag="F-54" if tuple(order) == ("trim", "fix") else None)
     ctx.coverage["oracle"]["programs_with_two_or_more_pending_categories"] = k2
     ctx.coverage["oracle"]["orders_checked"] = sum(o.get("orders", 0) for o in outs)
     i = next((i for i, o in enumerate(outs) if len(o.get("pending", [])) >= 2), 0)
@@ -365,6 +384,9 @@ def replay(ctx: Ctx, data):
     if c.get("kind") == "sessions-imports":
         si = run_session_orders(None, IMPORT_FILES, ("create", "fix"), 2)
         return "error" not in si["together"] and all("error" not in r and r == si["together"] for _, r in si["orders"])
+    if c.get("kind") == "sessions-abort":
+        sa = run_session_orders(None, ABORT_FILES, ("fix", "trim"), 2)
+        return "error" not in sa["together"] and all("error" not in r and r == sa["together"] for _, r in sa["orders"])
     if c.get("kind") == "sessions":
         so = run_session_orders(None)
         return "error" not in so["together"] and all("error" not in r and r == so["together"] for _, r in so["orders"])
